@@ -2,6 +2,7 @@ package c02
 
 import (
 	"fmt"
+	"os"
 	"runtime/debug"
 	"sort"
 	"strings"
@@ -49,8 +50,11 @@ func Census(tier string, shard, of int, groupFilter string) string {
 	c.Init(tier, 0)
 	r := &censusRep{sigs: map[string]int{}, ex: map[string]engine.Failure{}}
 	for u := int64(shard); u < c.units; u += int64(of) {
-		g, _ := c.decode(u)
+		g, d := c.decode(u)
 		if groupFilter != "" && !strings.Contains(g.Name, groupFilter) {
+			continue
+		}
+		if need := os.Getenv("C02_CENSUS_DEV"); need != "" && !d.hasDev(need) {
 			continue
 		}
 		c.run(u, r)
